@@ -307,10 +307,38 @@ def propagate_module_constants(tree):
             for a in st.names:
                 binds.setdefault((a.asname or a.name).split(".")[0], []).append(st)
     consts = {}
-    for name, sts in binds.items():
-        if len(sts) == 1 and isinstance(sts[0], ast.Assign) and len(sts[0].targets) == 1 and isinstance(sts[0].targets[0], ast.Name) \
-                and _is_literal(sts[0].value) and not name.startswith("__"):
-            consts[name] = sts[0].value
+
+    def fold(e):
+        """"a" + "b" -> "ab" (constants built from other constants)"""
+        class F(ast.NodeTransformer):
+            def visit_BinOp(self, b):
+                self.generic_visit(b)
+                if isinstance(b.op, ast.Add) and isinstance(b.left, ast.Constant) and isinstance(b.right, ast.Constant) and \
+                        isinstance(b.left.value, str) and isinstance(b.right.value, str):
+                    return ast.copy_location(ast.Constant(value=b.left.value + b.right.value), b)
+                return b
+        return F().visit(e)
+    for _round in range(4):
+        grew = False
+        for name, sts in binds.items():
+            if name in consts or len(sts) != 1 or not isinstance(sts[0], ast.Assign) or len(sts[0].targets) != 1 or \
+                    not isinstance(sts[0].targets[0], ast.Name) or name.startswith("__"):
+                continue
+            v = sts[0].value
+            used = {x.id for x in ast.walk(v) if isinstance(x, ast.Name)}
+            if used and used <= set(consts):
+                # a constant defined from earlier constants: substitute them and fold string concatenations
+                v = copy.deepcopy(v)
+
+                class S(ast.NodeTransformer):
+                    def visit_Name(self, n_):
+                        return ast.copy_location(copy.deepcopy(consts[n_.id]), n_) if n_.id in consts else n_
+                v = fold(S().visit(v))
+            if _is_literal(v):
+                consts[name] = v
+                grew = True
+        if not grew:
+            break
     # names re-bound anywhere below module level through `global`
     for x in ast.walk(tree):
         if isinstance(x, ast.Global):
